@@ -37,97 +37,117 @@ theorem accepts_prefix {a b : List Event} (h : accepts (a ++ b) = true) : accept
     obtain ⟨m1, h1, _⟩ := mrun_append_some hm
     simp [h1]
 
-/-- a step needs `closeReturned = false` -/
-theorem mstep_not_returned {m m' : MState} {e : Event} (h : mstep m e = some m') : m.closeReturned = false := by
-  unfold mstep at h
-  cases hr : m.closeReturned with
-  | false => rfl
-  | true => simp [hr] at h
+/-- the guard of an event, as a proposition -/
+def mguard (m : MState) : Event → Prop
+  | .connOpen c => c ∉ m.opened
+  | .connClose c => c ∈ m.opened ∧ c ∉ m.closed
+  | .sessionOpen s c => s ∉ m.sopened ∧ c ∈ m.opened
+  | .sessionClose s => s ∈ m.sopened ∧ s ∉ m.sclosed
+  | .request c => c ∈ m.opened ∧ c ∉ m.closed
+  | .sreq s c => (s ∈ m.sopened ∧ s ∉ m.sclosed) ∧ (c ∈ m.opened ∧ c ∉ m.closed)
+  | .packet s => s ∈ m.sopened ∧ s ∉ m.sclosed
+  | .closeCalled => m.closeCalled = false
+  | .closeReturned => m.closeCalled = true ∧ (∀ c, c ∈ m.opened → c ∈ m.closed) ∧ (∀ s, s ∈ m.sopened → s ∈ m.sclosed)
 
-/-- nothing is accepted after `closeReturned` -/
-theorem mrun_returned {m m' : MState} {es : List Event} (hr : m.closeReturned = true) (h : mrun m es = some m') :
-    es = [] := by
-  cases es with
-  | nil => rfl
-  | cons e es =>
-    obtain ⟨m1, h1, _⟩ := mrun_cons_some h
-    have := mstep_not_returned h1
-    simp [hr] at this
+/-- the effect of an event -/
+def mnext (m : MState) : Event → MState
+  | .connOpen c => { m with opened := c :: m.opened }
+  | .connClose c => { m with closed := c :: m.closed }
+  | .sessionOpen s _ => { m with sopened := s :: m.sopened }
+  | .sessionClose s => { m with sclosed := s :: m.sclosed }
+  | .request _ | .sreq _ _ | .packet _ => m
+  | .closeCalled => { m with closeCalled := true }
+  | .closeReturned => { m with closeReturned := true }
 
-/-! ### what one step does to the monitor state, event by event -/
+theorem mstep_iff (m m' : MState) (e : Event) :
+    mstep m e = some m' ↔ (m.closeReturned = false ∧ mguard m e ∧ mnext m e = m') := by
+  cases hr : m.closeReturned <;> cases e <;>
+    simp [mstep, mguard, mnext, hr, MState.connOpen, MState.sessOpen] <;> try (intros; constructor <;> intros <;> simp_all)
 
-theorem mstep_connOpen {m m' : MState} {c : Nat} (h : mstep m (.connOpen c) = some m') :
-    m.opened.contains c = false ∧ m' = { m with opened := c :: m.opened } := by
-  have hr := mstep_not_returned h
-  simp only [mstep, hr] at h
-  cases hc : m.opened.contains c with
-  | true => simp [hc] at h
-  | false => simp [hc] at h; exact ⟨rfl, h.symm⟩
+end Rtsp.Life
 
-theorem mstep_connClose {m m' : MState} {c : Nat} (h : mstep m (.connClose c) = some m') :
-    m.opened.contains c = true ∧ m.closed.contains c = false ∧ m' = { m with closed := c :: m.closed } := by
-  have hr := mstep_not_returned h
-  simp only [mstep, hr, MState.connOpen] at h
-  cases h1 : m.opened.contains c <;> cases h2 : m.closed.contains c <;> simp [h1, h2] at h
-  exact ⟨rfl, rfl, h.symm⟩
+namespace Rtsp.Life
 
-theorem mstep_sessionOpen {m m' : MState} {s c : Nat} (h : mstep m (.sessionOpen s c) = some m') :
-    m.sopened.contains s = false ∧ m.opened.contains c = true ∧ m' = { m with sopened := s :: m.sopened } := by
-  have hr := mstep_not_returned h
-  simp only [mstep, hr] at h
-  cases h1 : m.sopened.contains s <;> cases h2 : m.opened.contains c <;> simp [h1, h2] at h
-  exact ⟨rfl, rfl, h.symm⟩
+/-- is this event the open notification of session `s` (whoever the author)? -/
+def isSessOpen (s : Nat) : Event → Bool
+  | .sessionOpen s' _ => s' == s
+  | _ => false
 
-theorem mstep_sessionClose {m m' : MState} {s : Nat} (h : mstep m (.sessionClose s) = some m') :
-    m.sopened.contains s = true ∧ m.sclosed.contains s = false ∧ m' = { m with sclosed := s :: m.sclosed } := by
-  have hr := mstep_not_returned h
-  simp only [mstep, hr, MState.sessOpen] at h
-  cases h1 : m.sopened.contains s <;> cases h2 : m.sclosed.contains s <;> simp [h1, h2] at h
-  exact ⟨rfl, rfl, h.symm⟩
+/-- how the monitor state reflects the trace processed so far -/
+structure TrInv (tr : List Event) (m : MState) : Prop where
+  opened : ∀ c, c ∈ m.opened ↔ Event.connOpen c ∈ tr
+  closed : ∀ c, c ∈ m.closed ↔ Event.connClose c ∈ tr
+  sopened : ∀ s, s ∈ m.sopened ↔ ∃ c, Event.sessionOpen s c ∈ tr
+  sclosed : ∀ s, s ∈ m.sclosed ↔ Event.sessionClose s ∈ tr
+  called : m.closeCalled = true ↔ Event.closeCalled ∈ tr
+  returned : m.closeReturned = true ↔ Event.closeReturned ∈ tr
 
-theorem mstep_request {m m' : MState} {c : Nat} (h : mstep m (.request c) = some m') :
-    m.opened.contains c = true ∧ m.closed.contains c = false ∧ m' = m := by
-  have hr := mstep_not_returned h
-  simp only [mstep, hr, MState.connOpen] at h
-  cases h1 : m.opened.contains c <;> cases h2 : m.closed.contains c <;> simp [h1, h2] at h
-  exact ⟨rfl, rfl, h.symm⟩
+theorem TrInv.init : TrInv [] {} := by
+  constructor <;> simp
 
-theorem mstep_sreq {m m' : MState} {s c : Nat} (h : mstep m (.sreq s c) = some m') :
-    m.sopened.contains s = true ∧ m.sclosed.contains s = false ∧
-    m.opened.contains c = true ∧ m.closed.contains c = false ∧ m' = m := by
-  have hr := mstep_not_returned h
-  simp only [mstep, hr, MState.connOpen, MState.sessOpen] at h
-  cases h1 : m.opened.contains c <;> cases h2 : m.closed.contains c <;>
-    cases h3 : m.sopened.contains s <;> cases h4 : m.sclosed.contains s <;> simp [h1, h2, h3, h4] at h
-  exact ⟨rfl, rfl, rfl, rfl, h.symm⟩
+theorem TrInv.step {tr : List Event} {m m' : MState} {e : Event} (h : TrInv tr m) (hs : mstep m e = some m') :
+    TrInv (tr ++ [e]) m' := by
+  obtain ⟨hr, _, rfl⟩ := (mstep_iff m m' e).mp hs
+  obtain ⟨o, c, so, sc, ca, re⟩ := h
+  have hnr : Event.closeReturned ∉ tr := fun hx => by have := re.mpr hx; simp [hr] at this
+  cases e <;> constructor <;> (try intro x) <;> simp [mnext, o, c, so, sc, ca, re, hr, hnr, or_comm, eq_comm]
+  rename_i s a _
+  constructor
+  · rintro (rfl | ⟨y, hy⟩)
+    · exact ⟨a, Or.inl ⟨rfl, rfl⟩⟩
+    · exact ⟨y, Or.inr hy⟩
+  · rintro ⟨y, ⟨h, _⟩ | hy⟩
+    · exact Or.inl h
+    · exact Or.inr ⟨y, hy⟩
 
-theorem mstep_packet {m m' : MState} {s : Nat} (h : mstep m (.packet s) = some m') :
-    m.sopened.contains s = true ∧ m.sclosed.contains s = false ∧ m' = m := by
-  have hr := mstep_not_returned h
-  simp only [mstep, hr, MState.sessOpen] at h
-  cases h1 : m.sopened.contains s <;> cases h2 : m.sclosed.contains s <;> simp [h1, h2] at h
-  exact ⟨rfl, rfl, h.symm⟩
-
-theorem mstep_closeCalled {m m' : MState} (h : mstep m .closeCalled = some m') :
-    m.closeCalled = false ∧ m' = { m with closeCalled := true } := by
-  have hr := mstep_not_returned h
-  simp only [mstep, hr] at h
-  cases h1 : m.closeCalled <;> simp [h1] at h
-  exact ⟨rfl, h.symm⟩
-
-theorem mstep_closeReturned {m m' : MState} (h : mstep m .closeReturned = some m') :
-    m.closeCalled = true ∧ (∀ c, c ∈ m.opened → c ∈ m.closed) ∧ (∀ s, s ∈ m.sopened → s ∈ m.sclosed) ∧
-    m' = { m with closeReturned := true } := by
-  have hr := mstep_not_returned h
-  simp only [mstep, hr] at h
-  cases h1 : m.closeCalled <;> cases h2 : m.opened.all (m.closed.contains ·) <;>
-    cases h3 : m.sopened.all (m.sclosed.contains ·) <;> simp [h1, h2, h3] at h
-  refine ⟨rfl, ?_, ?_, h.symm⟩
-  · intro c hc
-    have := List.all_eq_true.mp h2 c hc
+theorem TrInv.run {tr2 : List Event} : ∀ {tr : List Event} {m m' : MState}, TrInv tr m → mrun m tr2 = some m' →
+    TrInv (tr ++ tr2) m' := by
+  induction tr2 with
+  | nil => intro tr m m' h hr; simp [mrun] at hr; subst hr; simpa using h
+  | cons e es ih =>
+    intro tr m m' h hr
+    obtain ⟨m1, h1, h2⟩ := mrun_cons_some hr
+    have := ih (h.step h1) h2
     simpa using this
-  · intro s hs
-    have := List.all_eq_true.mp h3 s hs
-    simpa using this
+
+/-- the monitor state after an accepted trace reflects the trace -/
+theorem trInv_of_mrun {tr : List Event} {m : MState} (h : mrun {} tr = some m) : TrInv tr m := by
+  simpa using TrInv.init.run h
+
+/-! ### monotonicity along a run -/
+
+theorem mstep_mono {m m' : MState} {e : Event} (h : mstep m e = some m') :
+    (∀ c, c ∈ m.opened → c ∈ m'.opened) ∧ (∀ c, c ∈ m.closed → c ∈ m'.closed) ∧
+    (∀ s, s ∈ m.sopened → s ∈ m'.sopened) ∧ (∀ s, s ∈ m.sclosed → s ∈ m'.sclosed) := by
+  obtain ⟨_, _, rfl⟩ := (mstep_iff m m' e).mp h
+  cases e <;> simp [mnext] <;> intros <;> simp_all
+
+theorem mrun_mono {es : List Event} : ∀ {m m' : MState}, mrun m es = some m' →
+    (∀ c, c ∈ m.opened → c ∈ m'.opened) ∧ (∀ c, c ∈ m.closed → c ∈ m'.closed) ∧
+    (∀ s, s ∈ m.sopened → s ∈ m'.sopened) ∧ (∀ s, s ∈ m.sclosed → s ∈ m'.sclosed) := by
+  induction es with
+  | nil => intro m m' h; simp [mrun] at h; subst h; simp
+  | cons e es ih =>
+    intro m m' h
+    obtain ⟨m1, h1, h2⟩ := mrun_cons_some h
+    have a := mstep_mono h1
+    have b := ih h2
+    exact ⟨fun c hc => b.1 c (a.1 c hc), fun c hc => b.2.1 c (a.2.1 c hc),
+           fun s hs => b.2.2.1 s (a.2.2.1 s hs), fun s hs => b.2.2.2 s (a.2.2.2 s hs)⟩
+
+/-- an event whose guard is permanently false cannot occur later in an accepted run -/
+theorem not_later {es : List Event} {e : Event} (P : MState → Prop)
+    (hstep : ∀ m m' e', P m → mstep m e' = some m' → P m') (hbad : ∀ m, P m → ¬ mguard m e) :
+    ∀ {m m' : MState}, P m → mrun m es = some m' → e ∉ es := by
+  induction es with
+  | nil => intros; simp
+  | cons e' es ih =>
+    intro m m' hp h
+    obtain ⟨m1, h1, h2⟩ := mrun_cons_some h
+    have := ih (hstep m m1 e' hp h1) h2
+    intro hmem
+    rcases List.mem_cons.mp hmem with rfl | hm
+    · exact hbad m hp ((mstep_iff m m1 e).mp h1).2.1
+    · exact this hm
 
 end Rtsp.Life
